@@ -159,29 +159,36 @@ CHECKS = {
          "unmatched notes, durations, velocities, pedal values; ms times): same alignment entries and ids, pitch/velocity, ticks = nearest "
          "tick, seconds consistent with the file's clock, pedal events, clock units/rate, score notes with the same onset/duration in beats, "
          "spelling, voice, staff, key signatures and measures at their bars. Engine B proves the tick<->seconds kernels (relative-error model).",
-    note="No text: writing/reading the file and duplicate-id resolution of load_matchfile are outside (line text is C07's). The score half runs on "
-         "concrete shapes only (two measures, optional pickup, key change at a barline); matched performed notes have pinned onsets (they are "
+    note="The chain runs without text (line text is C07's). load_matchfile's exact-duplicate removal and validate_match_ids are checked on generated "
+         "files of <=5 note lines with symbolic ids over a pool of 2 against the documented resolution. The score half runs on "
+         "concrete shapes only (two or three measures, optional pickup, key change at a barline, 4/4-3/4-4/4); matched performed notes have pinned onsets (they are "
          "interpolation knots: non-linear otherwise). Performed ids of the form n<k>.",
     technique="symbolic execution of real code (CrossHair/z3) + AST->SMT float kernel proof",
     ref="DESIGN.md §2 C08"),
  "C17": dict(
-    text="PARTIAL: symbolic execution of the last two stages of the pitch speller (compute_morphetic_pitch, p2pn) with a symbolic MIDI pitch "
+    text="Spelling: symbolic execution of the last two stages of the pitch speller (compute_morphetic_pitch, p2pn) with a symbolic MIDI pitch "
          "21..108 and an ARBITRARY morph 0..6: whichever morph the estimator picks, the spelled step/alteration/octave sounds exactly the MIDI "
-         "pitch (so a score imported from MIDI keeps the file's pitches). Path tree exhausted (88 pitches x 7 morphs enumerated by the solver "
-         "for the table look-ups; the octave placement is decided symbolically).",
-    note="Only the pitch-preservation clause is claimed. The morph estimation (chroma-vector windows; hence |alter| <= 2 and order independence), "
-         "voice separation (VoSA) and key estimation (np.corrcoef, argmax) are dense numeric kernels outside the encoding.",
-    technique="symbolic execution of real code (CrossHair/z3), partial",
-    ref="DESIGN.md §2 C17"),
+         "pitch (so a score imported from MIDI keeps the file's pitches). Voices: estimate_voices on 3-4 notes with concrete pitches and symbolic "
+         "onset/duration on small integer grids incl. zero-length notes, both modes (one positive voice per note, numbered from 1 without gaps, "
+         "chord mode groups identical onset+duration; the solver enumerates the grid by realisation). Key: the duration-weighted pitch-class "
+         "distribution with symbolic pitches and real durations (octave shift invariant, transposition rotates, rescaling rescales), the static "
+         "rotation structure of the three profile tables, and estimate_key end to end on concrete contexts plus one symbolic note (valid name, "
+         "octave/duration/onset invariance, transposition equivariance). Path trees exhausted per instance.",
+    note="The morph estimation (chroma-vector windows; hence |alter| <= 2 and order independence of spelling) and load_score_midi are outside. "
+         "VoSA and np.corrcoef run on realised (concrete) inputs under the tracer: the solver decides path feasibility and enumerates the grid, "
+         "it does not reason about the float kernel; near ties (< 1e-9) of the two best correlations are outside the claim.",
+    technique="symbolic execution of real code (CrossHair/z3); enumeration by realisation for the numeric kernels",
+    ref="DESIGN.md §I.5 C17"),
  "C03": dict(
     text="PARTIAL (second sentence of the property only): symbolic execution of the exporter's measure linearisation "
          "(linearize_measure_contents / linearize_segment_contents / remove_voice_polyphony / make_note_el / add_chord_tags / "
          "merge_with_voice / merge_measure_contents / forward_backup_if_needed) on one measure with symbolic onsets, durations, voice and "
-         "shape variants (chord, chord member of other length, grace note, rest, tie flag); the produced element sequence is read by an "
+         "shape variants (chord, chord member of other length, grace note, rest, tie flag, words/dynamics, a mid-measure divisions change in the "
+         "first or a later measure, two notes to be moved to free voices); the produced element sequence is read by an "
          "independent MusicXML position interpreter (duration / backup / forward / chord / grace) and must denote exactly the measure's "
          "notes (onset, duration, spelling, staff, tie flags), with no polyphony left inside a voice. Path trees exhausted per shape.",
-    note="Element-tree model instead of lxml: NO serialisation, NO load_musicxml, no re-export fixpoint, no part lists/groups, directions, "
-         "slurs, tuplets, mid-measure division changes; these clauses of C03 are not claimed. Numbers written with str.format are kept "
+    note="Element-tree model instead of lxml: NO serialisation, NO load_musicxml, no re-export fixpoint, no part lists/groups, "
+         "slurs, tuplets, notes crossing a divisions change; these clauses of C03 are not claimed. Numbers written with str.format are kept "
          "as lazy values (opt-in CrossHair patch) so they are decided, not enumerated.",
     technique="symbolic execution of real code (CrossHair/z3) + independent interpreter, partial",
     ref="DESIGN.md §I.5 C03"),
